@@ -135,6 +135,18 @@ CLAIMED['C05'] = dict(
     note='Trusts the consumer tables (confirmed by reading) and that mro._merge implements C3; equality with type.__mro__ needs execution.',
     ref='DESIGN.md section 3, C05')
 
+CLAIMED['C11'] = dict(
+    technique='agreement of expressions across writer, url builder and templates + census of literal link targets',
+    text='Static: page files are opened at build_directory/ob.url resp. pclass.filename, Documentable.url derives the page part from '
+         'page_object.fullName() only and gives index.html only to the single root itself (R11.1); the attribute used as url fragment is '
+         'emitted as an <a name> by the function and attribute child templates of every theme (R11.2); the page writer recurses over all '
+         'contents and writes a page for every visible OWN_PAGE object (R11.3); every literal *.html target in Python code and templates '
+         'is a page written unconditionally (or index.html, written in both root configurations) and every referenced asset is shipped '
+         '(R11.4); the same-page shortening strips exactly the page url (R11.5). Together with C12/R12.1 (links only through taglink, only '
+         'to visible objects) this decides the link scheme, not a crawl of real output.',
+    note='Assumes the default "all subjects" configuration; fragments for names needing escaping and superseded duplicates are not decided.',
+    ref='DESIGN.md section 3, C11')
+
 NOT_APPLICABLE = {
     'C04': 'relation between expandName results and the interpreter import system over all projects: value computations, no clause visible in the shape of the code (DESIGN.md section 5)',
     'C06': 'quantifies over processing schedules; name resolution during the AST walk is order sensitive by design, no structural bound (DESIGN.md section 5); the one structural fact (post-processing after the drain loop) is checked under C05',
